@@ -68,7 +68,7 @@ Definition finished (s : sim) : bool :=
 (* ---------- battle case ----------
    [M; R; W; P; C; flags; maxsteps; nw; (len; start; off; 6*len numbers)*nw]
    flags: bit0 reports, bit1 also Run() on a fresh simulator, bit2 per-cycle core sums,
-          bit3 full core dumps *)
+          bit3 full core dumps, bit4 core dump after every cycle *)
 Record bwarrior := mkBW { bw_code : list instr; bw_start : Z; bw_off : N }.
 Definition rd_bwarrior : rd bwarrior := fun l =>
   match l with
@@ -127,21 +127,20 @@ Fixpoint step_loop (fl : Z) (k : nat) (s : sim) (out : list (list Z)) : sim * li
          | Ok (s', r, reps) =>
            let o1 := [3; r] ++ observe (flag fl 2) s' in
            let o2 := if flag fl 0 then [[4] ++ enc_reports reps] else [] in
-           step_loop fl k' s' (out ++ [o1] ++ o2)
+           let o3 := if flag fl 4 then [[11] ++ dump_core s'] else [] in
+           step_loop fl k' s' (out ++ [o1] ++ o2 ++ o3)
          end
   end.
 
 Definition enc_bools (l : list bool) : list Z := map (fun b : bool => if b then 1 else 0) l.
 
-Definition run_battle (l : list Z) : list (list Z) :=
-  match rd_bcase l with
-  | None => [[0]]
-  | Some (bc, _) =>
+Definition run_bcase (bc : bcase) : list (list Z) :=
     let fl := bc_flags bc in
     match setup bc with
     | (None, out) => out
     | (Some s, out) =>
       let '(s1, out1) := step_loop fl (bc_maxsteps bc) s out in
+      if existsb (fun r => match r with [9; 1] => true | _ => false end) out1 then out1 else
       let out2 := out1 ++ [[5] ++ observe (flag fl 2) s1]
                        ++ (if flag fl 3 then [[6] ++ dump_core s1] else []) in
       if flag fl 1 then
@@ -154,7 +153,28 @@ Definition run_battle (l : list Z) : list (list Z) :=
                  ++ (if flag fl 3 then [[10] ++ dump_core s2] else [])
         end
       else out2
+    end.
+
+Definition run_battle (l : list Z) : list (list Z) :=
+  match rd_bcase l with
+  | None => [[0]]
+  | Some (bc, _) => run_bcase bc
+  end.
+
+(* kind 4: the battle, the marker [50], the battle with every offset moved by k + j*M *)
+Definition shift_bcase (k j : Z) (bc : bcase) : bcase :=
+  mkBC (bc_cfg bc) (bc_flags bc) (bc_maxsteps bc)
+       (map (fun w => mkBW (bw_code w) (bw_start w)
+                           (Z.to_N (Z.of_N (bw_off w) + k + j * Z.of_N (c_size (bc_cfg bc)))))
+            (bc_ws bc)).
+Definition run_rot (l : list Z) : list (list Z) :=
+  match l with
+  | k :: j :: t =>
+    match rd_bcase t with
+    | None => [[0]]
+    | Some (bc, _) => run_bcase bc ++ [[50]] ++ run_bcase (shift_bcase k j bc)
     end
+  | _ => [[0]]
   end.
 
 (* ---------- entry point: first number selects the case kind ---------- *)
@@ -162,4 +182,185 @@ Definition run_case (l : list Z) : list (list Z) :=
   match l with
   | 1 :: t => run_battle t
   | _ => [[0]]
+  end.
+
+(* ---------- API history case (kind 2) ----------
+   [M; R; W; P; C; Len; Dist; nd; (len; start; 6*len numbers)*nd; nops; ops...]
+   ops: 1 k        AddWarrior(data k)
+        2 i off    SpawnWarrior(i, off)
+        3          RunCycle
+        4          Run
+        5          Reset
+        6 i        GetWarrior(i)
+        7 a        GetMem(a)
+        8 h        handle h: Alive      9 h  Queue     10 h  NextPC     11 h  Length
+   After every call: [30; status; results...] then [31; observables...].
+   status 0 ok, 1 error/nil returned, 2 panic, 3 no such handle (harness level). *)
+Record wdata := mkWD { wd_code : list instr; wd_start : Z }.
+Definition rd_wdata : rd wdata := fun l =>
+  match l with
+  | len :: start :: t =>
+    match rd_many rd_instr (Z.to_nat len) t with
+    | Some (code, t') => Some (mkWD code start, t')
+    | None => None
+    end
+  | _ => None
+  end.
+
+Inductive aop :=
+| OAdd (k : nat) | OSpawn (i : Z) (off : N) | OCycle | ORun | OReset
+| OGetW (i : Z) | OGetMem (a : N) | OAlive (h : nat) | OQueue (h : nat)
+| ONextPC (h : nat) | OLength (h : nat).
+Definition rd_aop : rd aop := fun l =>
+  match l with
+  | 1 :: k :: t => Some (OAdd (Z.to_nat k), t)
+  | 2 :: i :: off :: t => Some (OSpawn i (Z.to_N off), t)
+  | 3 :: t => Some (OCycle, t)
+  | 4 :: t => Some (ORun, t)
+  | 5 :: t => Some (OReset, t)
+  | 6 :: i :: t => Some (OGetW i, t)
+  | 7 :: a :: t => Some (OGetMem (Z.to_N a), t)
+  | 8 :: h :: t => Some (OAlive (Z.to_nat h), t)
+  | 9 :: h :: t => Some (OQueue (Z.to_nat h), t)
+  | 10 :: h :: t => Some (ONextPC (Z.to_nat h), t)
+  | 11 :: h :: t => Some (OLength (Z.to_nat h), t)
+  | _ => None
+  end.
+
+Record acase := mkAC { ac_cfg : config; ac_data : list wdata; ac_ops : list aop }.
+Definition rd_acase : rd acase := fun l =>
+  match l with
+  | M :: R :: W :: P :: C :: Ln :: Ds :: nd :: t =>
+    match rd_many rd_wdata (Z.to_nat nd) t with
+    | Some (ds, nops :: t1) =>
+      match rd_many rd_aop (Z.to_nat nops) t1 with
+      | Some (ops, t2) =>
+          Some (mkAC (mkCfg 2 (Z.to_N M) (Z.to_N P) (Z.to_N C) (Z.to_N R) (Z.to_N W)
+                            (Z.to_N Ln) (Z.to_N Ds)) ds ops, t2)
+      | None => None
+      end
+    | _ => None
+    end
+  | _ => None
+  end.
+
+Definition obs_rec (s : sim) : list Z := [31] ++ observe true s.
+
+(* one call on the model: None = panic (the history stops) *)
+Definition api_call (ds : list wdata) (s : sim) (o : aop) : option sim * list (list Z) :=
+  match o with
+  | OAdd k =>
+    match nth_error ds k with
+    | None => (Some s, [[30; 3]; obs_rec s])
+    | Some d => let s' := add_warrior s (wd_code d) (wd_start d) in (Some s', [[30; 0]; obs_rec s'])
+    end
+  | OSpawn i off =>
+    match spawn_warrior s i off with
+    | Panic => (None, [[30; 2]])
+    | Ok (inr _) => (Some s, [[30; 1]; obs_rec s])
+    | Ok (inl (s', _)) => (Some s', [[30; 0]; obs_rec s'])
+    end
+  | OCycle =>
+    match run_cycle s with
+    | Panic => (None, [[30; 2]])
+    | Ok (s', r, _) => (Some s', [[30; 0; r]; obs_rec s'])
+    end
+  | ORun =>
+    match run (S (S (N.to_nat (s_cycles s)))) s with
+    | RunPanic => (None, [[30; 2]])
+    | RunOutOfFuel => (None, [[99]])
+    | RunOk s' None => (Some s', [[30; 1]; obs_rec s'])
+    | RunOk s' (Some bs) => (Some s', [[30; 0] ++ enc_bools bs; obs_rec s'])
+    end
+  | OReset => let s' := fst (reset s) in (Some s', [[30; 0]; obs_rec s'])
+  | OGetW i =>
+    match get_warrior s i with
+    | Panic => (None, [[30; 2]])
+    | Ok None => (Some s, [[30; 1]; obs_rec s])
+    | Ok (Some _) => (Some s, [[30; 0]; obs_rec s])
+    end
+  | OGetMem a => (Some s, [[30; 0] ++ enc_instr (get_mem s a); obs_rec s])
+  | OAlive h =>
+    match nth_error (s_ws s) h with
+    | None => (Some s, [[30; 3]; obs_rec s])
+    | Some w => (Some s, [[30; 0; if alive w then 1 else 0]; obs_rec s])
+    end
+  | OQueue h =>
+    match nth_error (s_ws s) h with
+    | None => (Some s, [[30; 3]; obs_rec s])
+    | Some w => (Some s, [[30; 0] ++ enc_queue w; obs_rec s])
+    end
+  | ONextPC h =>
+    match nth_error (s_ws s) h with
+    | None => (Some s, [[30; 3]; obs_rec s])
+    | Some w =>
+      match w_next_pc w with
+      | Panic => (None, [[30; 2]])
+      | Ok None => (Some s, [[30; 1]; obs_rec s])
+      | Ok (Some pc) => (Some s, [[30; 0; Z.of_N pc]; obs_rec s])
+      end
+    end
+  | OLength h =>
+    match nth_error (s_ws s) h with
+    | None => (Some s, [[30; 3]; obs_rec s])
+    | Some w => (Some s, [[30; 0; Z.of_nat (length (w_code w))]; obs_rec s])
+    end
+  end.
+
+Fixpoint api_loop (ds : list wdata) (s : sim) (ops : list aop) (out : list (list Z)) : list (list Z) :=
+  match ops with
+  | [] => out
+  | o :: t =>
+    match api_call ds s o with
+    | (None, recs) => out ++ recs
+    | (Some s', recs) => api_loop ds s' t (out ++ recs)
+    end
+  end.
+
+Definition run_api (l : list Z) : list (list Z) :=
+  match rd_acase l with
+  | None => [[0]]
+  | Some (ac, _) =>
+    match new_sim (ac_cfg ac) with
+    | None => [[1; 0]]
+    | Some s => api_loop (ac_data ac) s (ac_ops ac) [[1; 1]]
+    end
+  end.
+
+Definition run_case2 (l : list Z) : list (list Z) :=
+  match l with
+  | 2 :: t => run_api t
+  | 4 :: t => run_rot t
+  | _ => run_case l
+  end.
+
+(* ---------- kind 3: configuration [mode; M; P; C; R; W; Len; Dist] ---------- *)
+Definition run_config (l : list Z) : list (list Z) :=
+  match l with
+  | md :: M :: P :: C :: R :: W :: Ln :: Ds :: _ =>
+    let cfg := mkCfg (Z.to_N md) (Z.to_N M) (Z.to_N P) (Z.to_N C) (Z.to_N R) (Z.to_N W) (Z.to_N Ln) (Z.to_N Ds) in
+    match new_sim cfg with
+    | None => [[1; 0]]
+    | Some s0 =>
+      let code := [mkI SPL mB 1 DIRECT 0 DIRECT; mkI MOV mI 0 DIRECT 1 DIRECT] in
+      match spawn_warrior (add_warrior s0 code 0) 0 0 with
+      | Ok (inl (s1, _)) =>
+        (fix go (k : nat) (s : sim) (out : list (list Z)) : list (list Z) :=
+           match k with
+           | O => out
+           | S k' => match run_cycle s with
+                     | Panic => out ++ [[9; 1]]
+                     | Ok (s', _, _) => go k' s' (out ++ [[3; 0] ++ observe false s'])
+                     end
+           end) 4%nat s1 [[1; 1]]
+      | _ => [[1; 1]; [9; 0]]
+      end
+    end
+  | _ => [[0]]
+  end.
+
+Definition run_case3 (l : list Z) : list (list Z) :=
+  match l with
+  | 3 :: t => run_config t
+  | _ => run_case2 l
   end.
